@@ -250,7 +250,7 @@ func (st *SortTable) ghostSort(s string) string {
 		return fmt.Sprintf("(Array Str %s)", st.idx())
 	}
 	if strings.HasPrefix(s, "smt:") {
-		return strings.TrimPrefix(s, "smt:")
+		return strings.ReplaceAll(strings.TrimPrefix(s, "smt:"), "~", " ")
 	}
 	return s
 }
@@ -290,7 +290,7 @@ func (st *SortTable) zero(t types.Type) string {
 		case "Bool":
 			return "false"
 		case "Str":
-			return "str.empty"
+			return "gs.empty"
 		case "Float":
 			return "float.zero"
 		case "Ref":
@@ -519,31 +519,40 @@ func (st *SortTable) prelude(body string) string {
 (declare-sort Str 0)
 (declare-sort Float 0)
 (declare-const float.zero Float)
-(declare-fun str.len (Str) IDX)
-(declare-fun str.at (Str IDX) BYTE)
-(declare-const str.empty Str)
-(assert (= (str.len str.empty) idx.zero))
-(assert (forall ((s Str)) (! (idx.le idx.zero (str.len s)) :pattern ((str.len s)))))
-(assert (forall ((s Str)) (! (=> (= (str.len s) idx.zero) (= s str.empty)) :pattern ((str.len s)))))
-(assert (forall ((s Str) (i IDX)) (! (byte.ok (str.at s i)) :pattern ((str.at s i)))))
-(declare-fun str.sub (Str IDX IDX) Str)
-(assert (forall ((s Str) (lo IDX) (hi IDX)) (! (=> (and (idx.le idx.zero lo) (idx.le lo hi)) (= (str.len (str.sub s lo hi)) (idx.sub hi lo))) :pattern ((str.sub s lo hi)))))
-(assert (forall ((s Str) (lo IDX) (hi IDX) (i IDX)) (! (=> (and (idx.le idx.zero i) (idx.lt i (idx.sub hi lo))) (= (str.at (str.sub s lo hi) i) (str.at s (idx.add lo i)))) :pattern ((str.at (str.sub s lo hi) i)))))
-(assert (forall ((s Str)) (! (= (str.sub s idx.zero (str.len s)) s) :pattern ((str.sub s idx.zero (str.len s))))))
-(declare-fun str.cat (Str Str) Str)
-(assert (forall ((a Str) (b Str)) (! (= (str.len (str.cat a b)) (idx.add (str.len a) (str.len b))) :pattern ((str.cat a b)))))
-(assert (forall ((a Str) (b Str) (i IDX)) (! (= (str.at (str.cat a b) i) (ite (idx.lt i (str.len a)) (str.at a i) (str.at b (idx.sub i (str.len a))))) :pattern ((str.at (str.cat a b) i)))))
-(assert (forall ((a Str)) (! (= (str.cat a str.empty) a) :pattern ((str.cat a str.empty)))))
-(assert (forall ((a Str)) (! (= (str.cat str.empty a) a) :pattern ((str.cat str.empty a)))))
+(declare-fun gs.len (Str) IDX)
+(declare-fun gs.at (Str IDX) BYTE)
+(declare-const gs.empty Str)
+(assert (= (gs.len gs.empty) idx.zero))
+(assert (forall ((s Str)) (! (idx.le idx.zero (gs.len s)) :pattern ((gs.len s)))))
+(assert (forall ((s Str)) (! (=> (= (gs.len s) idx.zero) (= s gs.empty)) :pattern ((gs.len s)))))
+(assert (forall ((s Str) (i IDX)) (! (byte.ok (gs.at s i)) :pattern ((gs.at s i)))))
+(declare-fun gs.sub (Str IDX IDX) Str)
+(assert (forall ((s Str) (lo IDX) (hi IDX)) (! (=> (and (idx.le idx.zero lo) (idx.le lo hi)) (= (gs.len (gs.sub s lo hi)) (idx.sub hi lo))) :pattern ((gs.sub s lo hi)))))
+(assert (forall ((s Str) (lo IDX) (hi IDX) (i IDX)) (! (=> (and (idx.le idx.zero i) (idx.lt i (idx.sub hi lo))) (= (gs.at (gs.sub s lo hi) i) (gs.at s (idx.add lo i)))) :pattern ((gs.at (gs.sub s lo hi) i)))))
+(assert (forall ((s Str)) (! (= (gs.sub s idx.zero (gs.len s)) s) :pattern ((gs.sub s idx.zero (gs.len s))))))
+(declare-fun gs.cat (Str Str) Str)
+(assert (forall ((a Str) (b Str)) (! (= (gs.len (gs.cat a b)) (idx.add (gs.len a) (gs.len b))) :pattern ((gs.cat a b)))))
+(assert (forall ((a Str) (b Str) (i IDX)) (! (= (gs.at (gs.cat a b) i) (ite (idx.lt i (gs.len a)) (gs.at a i) (gs.at b (idx.sub i (gs.len a))))) :pattern ((gs.at (gs.cat a b) i)))))
+(assert (forall ((a Str)) (! (= (gs.cat a gs.empty) a) :pattern ((gs.cat a gs.empty)))))
+(assert (forall ((a Str)) (! (= (gs.cat gs.empty a) a) :pattern ((gs.cat gs.empty a)))))
 (declare-datatypes ((Slice 0)) (((mkslice (sl.arr Ref) (sl.off IDX) (sl.len IDX) (sl.cap IDX)))))
 (define-fun slice.nil () Slice (mkslice null idx.zero idx.zero idx.zero))
 (define-fun slice.wf ((s Slice)) Bool (and (idx.le idx.zero (sl.off s)) (idx.le idx.zero (sl.len s)) (idx.le (sl.len s) (sl.cap s))))
 (declare-datatypes ((Iface 0)) (((iface.nil) (iface.ref (ifr.t Int) (ifr.v Ref)) (iface.int (ifi.t Int) (ifi.v IDX)) (iface.str (ifs.t Int) (ifs.v Str)) (iface.bool (ifb.t Int) (ifb.v Bool)) (iface.slice (ifl.t Int) (ifl.v Slice)) (iface.val (ifv.t Int) (ifv.v Int)))))
-(define-fun iface.typ ((v Iface)) Int (ite ((_ is iface.ref) v) (ifr.t v) (ite ((_ is iface.int) v) (ifi.t v) (ite ((_ is iface.str) v) (ifs.t v) (ite ((_ is iface.bool) v) (ifb.t v) (ite ((_ is iface.slice) v) (ifl.t v) (ite ((_ is iface.val) v) (ifv.t v) 0)))))))
+(declare-fun iface.typ (Iface) Int)
+(declare-fun iface.wf (Iface) Bool)
+(assert (= (iface.typ iface.nil) 0))
+(assert (forall ((t Int) (x Ref)) (! (= (iface.typ (iface.ref t x)) t) :pattern ((iface.ref t x)))))
+(assert (forall ((t Int) (x IDX)) (! (= (iface.typ (iface.int t x)) t) :pattern ((iface.int t x)))))
+(assert (forall ((t Int) (x Str)) (! (= (iface.typ (iface.str t x)) t) :pattern ((iface.str t x)))))
+(assert (forall ((t Int) (x Bool)) (! (= (iface.typ (iface.bool t x)) t) :pattern ((iface.bool t x)))))
+(assert (forall ((t Int) (x Slice)) (! (= (iface.typ (iface.slice t x)) t) :pattern ((iface.slice t x)))))
+(assert (forall ((t Int) (x Int)) (! (= (iface.typ (iface.val t x)) t) :pattern ((iface.val t x)))))
+(assert (forall ((v Iface)) (! (= (iface.typ v) (ite ((_ is iface.ref) v) (ifr.t v) (ite ((_ is iface.int) v) (ifi.t v) (ite ((_ is iface.str) v) (ifs.t v) (ite ((_ is iface.bool) v) (ifb.t v) (ite ((_ is iface.slice) v) (ifl.t v) (ite ((_ is iface.val) v) (ifv.t v) 0))))))) :pattern ((iface.typ v)))))
 (declare-fun implements (Int Int) Bool)
-(declare-fun str.of (Ref (Array IDX BYTE) IDX IDX) Str)
-(assert (forall ((r Ref) (a (Array IDX BYTE)) (o IDX) (n IDX)) (! (=> (idx.le idx.zero n) (= (str.len (str.of r a o n)) n)) :pattern ((str.of r a o n)))))
-(assert (forall ((r Ref) (a (Array IDX BYTE)) (o IDX) (n IDX) (i IDX)) (! (=> (and (idx.le idx.zero i) (idx.lt i n) (byte.ok (select a (idx.add o i)))) (= (str.at (str.of r a o n) i) (select a (idx.add o i)))) :pattern ((str.at (str.of r a o n) i)))))
+(declare-fun gs.of (Ref (Array IDX BYTE) IDX IDX) Str)
+(assert (forall ((r Ref) (a (Array IDX BYTE)) (o IDX) (n IDX)) (! (=> (idx.le idx.zero n) (= (gs.len (gs.of r a o n)) n)) :pattern ((gs.of r a o n)))))
+(assert (forall ((r Ref) (a (Array IDX BYTE)) (o IDX) (n IDX) (i IDX)) (! (=> (and (idx.le idx.zero i) (idx.lt i n) (byte.ok (select a (idx.add o i)))) (= (gs.at (gs.of r a o n) i) (select a (idx.add o i)))) :pattern ((gs.at (gs.of r a o n) i)))))
 `
 	common = strings.NewReplacer("IDX", idx, "BYTE", byt).Replace(common)
 	// quantified axioms are included only when the symbol they define occurs in the script
@@ -551,16 +560,18 @@ func (st *SortTable) prelude(body string) string {
 		if strings.HasPrefix(line, "(assert (forall") {
 			sym := ""
 			switch {
-			case strings.Contains(line, "str.of"):
-				sym = "str.of"
-			case strings.Contains(line, "str.sub"):
-				sym = "str.sub"
-			case strings.Contains(line, "str.cat"):
-				sym = "str.cat"
-			case strings.Contains(line, "str.at"):
-				sym = "str.at"
-			case strings.Contains(line, "str.len"):
-				sym = "str.len"
+			case strings.Contains(line, "iface.typ"):
+				sym = "iface.typ"
+			case strings.Contains(line, "gs.of"):
+				sym = "gs.of"
+			case strings.Contains(line, "gs.sub"):
+				sym = "gs.sub"
+			case strings.Contains(line, "gs.cat"):
+				sym = "gs.cat"
+			case strings.Contains(line, "gs.at"):
+				sym = "gs.at"
+			case strings.Contains(line, "gs.len"):
+				sym = "gs.len"
 			}
 			if sym != "" && !strings.Contains(body, sym) {
 				continue
